@@ -280,19 +280,22 @@ theorem daemon_check_run_ok (d : DCase) (hd : DSpec.inDomain d = true)
     (he : (d.toCase).recs.all (embOk d.tbl) = true) : DSpec.check d (drun d) = .ok :=
   DProofs.dcheck_run d hd he
 
-/-- `dump_table`: every peer index written into a RIB entry is smaller than the number of peers of the
-    PEER_INDEX_TABLE written before it, and the entry at that index is the peer the path was learned from. -/
+/-- `dump_table` (stated on the MODEL of `dump_table`, `DModel.idxOf` = `peer_index.get`): a peer index written into
+    a RIB entry is smaller than the number of peers of the PEER_INDEX_TABLE written before it, and the entry at that
+    index is the peer the path was learned from. -/
 theorem dump_peer_index_consistent (peers : List PeerEnt) (p : DPath) (i : Nat)
-    (h : DSpec.position peers p.src.raddr = some i) :
-    i < peers.length ∧ ∃ e, peers[i]? = some e ∧ e.addr = p.src.raddr :=
-  ⟨DProofs.position_lt peers _ i h, DProofs.position_addr peers _ i h⟩
+    (h : idxOf peers p.src.raddr = some i) :
+    i < peers.length ∧ ∃ e, peers[i]? = some e ∧ e.addr = p.src.raddr := by
+  rw [DProofs.idxOf_eq] at h
+  exact ⟨DProofs.position_lt peers _ i h, DProofs.position_addr peers _ i h⟩
 
-/-- `dump_table`: no path is lost - a RIB record has exactly one entry per path of its prefix (every path's peer
-    is in the index table, so the `filter_map` never drops one), and all their indexes are in range. -/
+/-- `dump_table` (on the model: `buildPeers` = the peer-index loop, `dumpEnts` = the `filter_map` of one record): no
+    path is lost - a RIB record has exactly one entry per path of its prefix - and all its indexes are in range. -/
 theorem dump_entry_count_consistent (chgs : List DChg) (c : DChg) (hc : c ∈ chgs) :
-    (DSpec.entriesOf (DSpec.peersOf chgs) c.paths).length = c.paths.length ∧
-      ∀ e ∈ DSpec.entriesOf (DSpec.peersOf chgs) c.paths, e.pidx < (DSpec.peersOf chgs).length :=
-  ⟨DProofs.entriesOf_length chgs c hc, DProofs.entriesOf_pidx _ _⟩
+    (dumpEnts (buildPeers chgs) c.paths).length = c.paths.length ∧
+      ∀ e ∈ dumpEnts (buildPeers chgs) c.paths, e.pidx < (buildPeers chgs).length := by
+  rw [DProofs.buildPeers_eq, DProofs.dumpEnts_eq]
+  exact ⟨DProofs.entriesOf_length chgs c hc, DProofs.entriesOf_pidx _ _⟩
 
 namespace DEx
 def src1 : Src := { raddr := .v4 [10, 0, 0, 1], laddr := .v4 [10, 0, 0, 9], rasn := 65001, lasn := 65009, rid := 167772161 }
